@@ -41,7 +41,7 @@ def host_of(form: str, i: int) -> str:
     return FORMS[form].format(n=i + 1)
 LITERAL = {"v4lit", "v6lit", "v6scope"}
 LOCALISH = {"bare", "local", "localdot"}
-MDNS = ("v4", "v6", "both", "none", "error")
+MDNS = ("v4", "v6", "both", "none", "error", "v4-partial")  # v4-partial: the address records are known, the SRV/TXT answers never came (the request reports failure)
 OS = ("v4", "v6v4", "empty", "error")
 
 
@@ -72,7 +72,7 @@ class ResWorld(World):
 # (1) resolution matrix
 # ---------------------------------------------------------------------------------------------------
 def mdns_addrs(host_i: int, ans: str) -> tuple[list[str], list[str]]:
-    v4s = [f"10.1.{host_i}.4", f"10.1.{host_i}.5"] if ans in ("v4", "both") else []
+    v4s = [f"10.1.{host_i}.4", f"10.1.{host_i}.5"] if ans in ("v4", "both", "v4-partial") else []
     v6s = [f"fd00::{host_i + 1}:6", f"fd00::{host_i + 1}:7"] if ans in ("v6", "both") else []
     return v4s, v6s
 
@@ -165,7 +165,7 @@ def run_resolution(args: tuple[int, int, int]) -> dict[str, Any]:
                         if ans == "error":
                             return OSError("mdns exploded")
                         info.v4, info.v6 = mdns_addrs(i, ans)
-                        return bool(info.v4 or info.v6)
+                        return bool(info.v4 or info.v6) and ans != "v4-partial"
 
                     def gai(host: str, port: int, _by: Any = by_host) -> Any:
                         if host not in _by or _by[host][1] == "-":
